@@ -189,6 +189,53 @@ def work(chunk):
     return acc.pack()
 
 
+HIST_CODES = ['MAR', 'Mar', 'mar', 'HM', 'hm', 'MILE', 'mile', '100m', '100M', '100', '60m', '60M', '5K', '5k', '5K road', '10K', '10k', 'XC', 'xc', '400', '400m', '400M',
+              '800', '1500', '3000', 'HJ', 'hj', 'DT', 'dt', 'DT1.5K', 'SP', 'sp', 'DEC', 'dec', '4x100', '4X100', 'T30', 't30', 'H1', 'h1']
+HIST_TEXTS = ['10.5', '12', '58.01', '1:02.5', '2:03:59', '4.05', '45.67', '5875', '27:50', '9.58', '12:00']
+
+
+def outcome(U, code, text, prec=None):
+    kw = dict(errorKlass=CustomError)
+    if prec is not None:
+        kw['prec'] = prec
+    try:
+        return ('ret', U.check_performance_for_discipline(code, text, **kw))
+    except Exception as e:
+        return ('exc', type(e).__name__)
+
+
+def history_work(chunk):
+    """the outcome of validating (code, text) must not depend on what was validated before it in the process"""
+    from vlib import shared
+    firsts, = chunk
+    G = setup('quick')
+    U = G['U']
+    st = shared.SharedState('athlib')
+    pristine = st.capture()
+    acc = Acc()
+    probes = [(c, t) for c in HIST_CODES for t in HIST_TEXTS]
+    alone = {}
+    for p in probes:
+        st.restore(pristine)
+        alone[p] = outcome(U, *p)
+    for c1 in firsts:
+        for t1 in ('10.5', '2:03:59', '12:00'):
+            for p in probes:
+                acc.n += 1
+                st.restore(pristine)
+                outcome(U, c1, t1)
+                got = outcome(U, *p)
+                if got != alone[p]:
+                    acc.bad('outcome-depends-on-earlier-validation', dict(first=[c1, t1], then=list(p)),
+                            'after validating %r for %r, (%r, %r) gives %r; alone it gives %r' % (t1, c1, p[0], p[1], got, alone[p]))
+                else:
+                    acc.nontrivial += 1
+    st.restore(pristine)
+    if not acc.samples:
+        acc.samples.append(dict(first=[firsts[0], '10.5'], then=['MAR', '10.5'], outcome=list(alone[('MAR', '10.5')])))
+    return acc.pack()
+
+
 def run(tier):
     common.bind_repo()
     rep = Report(PID, tier, 'exploration')
@@ -196,6 +243,8 @@ def run(tier):
     codes = G['codes']
     T = texts(tier)
     merge(rep, pmap(work, [(tier, codes[i::64]) for i in range(64)]), part='%d event codes x %d texts x gender/precision/error-class combinations' % (len(codes), len(T)))
+    merge(rep, pmap(history_work, [([c],) for c in HIST_CODES]), part='call-order histories: %d codes (case / suffix spellings) x 3 texts, then %d probes, vs the probe alone from a restored state' % (
+        len(HIST_CODES), len(HIST_CODES) * len(HIST_TEXTS)))
     c = rep.coverage
     c['event_codes'] = len(codes)
     c['texts'] = len(T)
